@@ -101,19 +101,25 @@ def gen(rng, tier):
         return gen_web(rng, tier, cfg, nsess)
     ops = []
     n = rng.randint(8, 25) * nsess
+    # 'last_gap_first': goals are worked out of order - search-suggested steps on the LAST open goal (which do not
+    # shift the ids of earlier lines, so the recorded steps keep applying and insert lines before finished sub-proofs)
+    style = 'last_gap_first' if rng.chance(0.3) else 'recorded'
+    cfg['style'] = style
     for _ in range(n):
         s = rng.randrange(nsess)
         if rng.chance(cfg['disturb']):
             ops.append({'op': 'disturb', 'kind': rng.pick(DISTURB), 'a': rng.randrange(10000)})
-        k = rng.weighted([('apply', 50), ('apply_copy', 12), ('perturb', 18), ('undo', 4), ('fail_on_copy', 5),
-                          ('export_import', 5), ('restart', 1.5)])
+        k = rng.weighted([('apply', 50), ('apply_copy', 12), ('perturb', 18 if style == 'recorded' else 60), ('undo', 4),
+                          ('fail_on_copy', 5), ('export_import', 5), ('restart', 1.5)])
         op = {'op': k, 's': s}
         if k == 'apply_copy':
             op['keep'] = rng.chance(0.6)
         elif k == 'perturb':
             op.update({'kind': rng.pick(PERTURB), 'a': rng.randrange(10000), 'b': rng.randrange(10000), 'keep': rng.chance(0.25)})
+            if style == 'last_gap_first' and rng.chance(0.8):
+                op['kind'] = 'search_last_gap'
             if op['kind'].startswith('search'):
-                op['keep'] = rng.chance(0.7)
+                op['keep'] = rng.chance(0.7 if style == 'recorded' else 0.9)
         elif k == 'fail_on_copy':
             op['k'] = rng.randint(1, 3)
         elif k == 'export_import':
